@@ -419,6 +419,10 @@ def run_yaml(scn) -> Result:
     H = History()
     world = World(scn["world"])
     os.makedirs(SCRATCH, exist_ok=True)
+    from .. import seams
+
+    env = seams.Env(ids=seams.SimId())  # S6: the runner keys its system cache by id(baseline)
+    env.install()
     try:
         current.ENT = world.ent
         # one scenario = one pytest session of a fresh process: the runner's
@@ -483,5 +487,6 @@ def run_yaml(scn) -> Result:
         res.digest = H.digest()
         return res
     finally:
+        seams.Env.uninstall()
         world.close()
         shutil.rmtree(SCRATCH, ignore_errors=True)
